@@ -442,6 +442,14 @@ class Life:
             elif k < 21:
                 who = r.pick([OWNER, OWNER, OWNER, SUPPORT, STRANGER])
                 vs = [u] if r.chance(3, 4) else [u, r.pick(self.users)]
+                if self.v in NFT and paid_nft and r.chance(1, 2):
+                    # a batch mixing participants who paid the NFT fee with participants who did not, in either order
+                    # (every payer of the batch must get the fee back, wherever he stands in the list)
+                    payers_ = [x for x in sorted(paid_nft) if x not in black]
+                    others_ = [x for x in self.users if x not in paid_nft and x not in black]
+                    if payers_ and others_:
+                        vs = r.shuffle([r.pick(payers_), r.pick(others_)] + ([r.pick(payers_ + others_)] if r.chance(1, 3) else []))
+                        vs = list(dict.fromkeys(vs))
                 ep = "blacklist" if not (self.v == "guarV2" and r.chance(1, 3)) else "refundUsers"
                 res = t.call(who, ep, [len(vs)] + vs)
                 if res["st"] == "ok":
